@@ -565,7 +565,8 @@ impl ViCut {
 					return Ok(())
 				};
 				let repeat_cmd = ViCmd {
-					register: RegisterName::default(),
+					// (the operator keeps the register it was given)
+					register: cmd.register.clone(),
 					verb: cmd.verb().cloned(),
 					motion: Some(motion),
 					raw_seq: format!("{count};"),
@@ -580,7 +581,7 @@ impl ViCut {
 				let mut new_motion = motion.invert_char_motion();
 				new_motion.0 = *count;
 				let repeat_cmd = ViCmd {
-					register: RegisterName::default(),
+					register: cmd.register.clone(),
 					verb: cmd.verb().cloned(),
 					motion: Some(new_motion),
 					raw_seq: format!("{count},"),
